@@ -6,11 +6,13 @@ package main
 
 import (
 	"bytes"
+	"crypto/sha1"
 	"encoding/binary"
 	"fmt"
 
 	"github.com/linuxboot/fiano/pkg/compression"
 	"github.com/linuxboot/fiano/pkg/guid"
+	"github.com/linuxboot/fiano/pkg/uefi"
 	"verifharness/uefigen"
 )
 
@@ -43,6 +45,28 @@ func allFF(b []byte) bool {
 
 var sectioned = map[byte]bool{2: true, 3: true, 4: true, 5: true, 7: true, 8: true, 9: true, 10: true, 11: true,
 	12: true, 13: true, 14: true, 15: true}
+
+// allowUndecodable: payloads (sha1) of compressed sections that did not decode in the INPUT image: fiano
+// keeps such a section as an opaque leaf, so the same payload may turn up undecodable in the output.
+// Any other payload under a codec GUID with the processing-required bit must decode.
+var allowUndecodable map[[20]byte]bool
+
+// undecodedPayloads collects them from a parsed tree (before it is edited or saved).
+func undecodedPayloads(t uefi.Firmware) map[[20]byte]bool {
+	m := map[[20]byte]bool{}
+	walkSections(t, func(s *uefi.Section) {
+		if gd := gdOf(s); gd != nil && len(s.Encapsulated) == 0 && int(gd.DataOffset) <= len(s.Buf()) {
+			m[sha1.Sum(s.Buf()[gd.DataOffset:])] = true
+		}
+	})
+	return m
+}
+
+func checkImageAllow(img []byte, allow map[[20]byte]bool) string {
+	allowUndecodable = allow
+	defer func() { allowUndecodable = nil }()
+	return checkImage(img)
+}
 
 func checkImage(img []byte) string {
 	for off := 0; off+64 <= len(img); {
@@ -194,9 +218,10 @@ func checkSections(body []byte, depth int) string {
 			if attrs&1 != 0 && kindOfGUID(g) != 0 {
 				plain, err := compression.CompressorFromGUID(&g).Decode(append([]byte{}, sec[doff:]...))
 				if err != nil {
-					return fmt.Sprintf("section at %x: payload does not decode: %v", off, err)
-				}
-				if r := checkSections(plain, depth+1); r != "" {
+					if !allowUndecodable[sha1.Sum(sec[doff:])] {
+						return fmt.Sprintf("section at %x: payload does not decode: %v", off, err)
+					}
+				} else if r := checkSections(plain, depth+1); r != "" {
 					return fmt.Sprintf("section at %x (decoded): %s", off, r)
 				}
 			}
